@@ -2,7 +2,6 @@ package props
 
 import (
 	"bytes"
-	"encoding/base64"
 	"encoding/json"
 	"errors"
 	"fmt"
@@ -218,14 +217,8 @@ func execC14(t *testing.T, sc *world.Scenario) (*oracle.Result, string) {
 		return r, "open: " + err.Error()
 	}
 	model := map[string][]byte{}
-	everSet := map[string][]byte{} // keys a Set was attempted for (their directories outlive a Delete)
 	fail := func(i int, kind, format string, a ...any) {
 		op := sc.Store.Ops[i]
-		if b.kind != "mem" && fsDirConflict(string(op.Key), everSet) {
-			// root cause of the listed known finding: the shorter key's file occupies a
-			// directory name of the longer key's fragmented path (or vice versa)
-			kind = "fs-prefix-dir-conflict:" + kind
-		}
 		r.Fail("C14", kind, i, "op #%d %s key(len %d)=%q on %s: %s", i, op.Op, len(op.Key), trunc(op.Key), b.kind, fmt.Sprintf(format, a...))
 	}
 	sawOverwriteOrDelete, prefixPair := false, false
@@ -250,7 +243,6 @@ func execC14(t *testing.T, sc *world.Scenario) (*oracle.Result, string) {
 			if _, ok := model[key]; ok {
 				sawOverwriteOrDelete = true
 			}
-			everSet[key] = nil
 			err := b.conn.Set(key, val)
 			if err != nil {
 				if emptyKey {
@@ -466,50 +458,6 @@ var checkC14 = Check{Prop: "C14", Gen: genC14, Exec: execC14}
 func init() { register(checkC14) }
 
 func TestC14(t *testing.T) { RunCheck(t, checkC14) }
-
-// fsFragments mirrors the documented on-disk naming of fscache (URL-safe base64 without
-// padding; names longer than 255 characters are cut into 48-character path fragments).
-func fsFragments(key string) []string {
-	enc := base64.RawURLEncoding.EncodeToString([]byte(key))
-	if len(enc) <= 255 {
-		return []string{enc}
-	}
-	var parts []string
-	for i := 0; i < len(enc); i += 48 {
-		parts = append(parts, enc[i:min(i+48, len(enc))])
-	}
-	return parts
-}
-
-// fsDirConflict reports whether key and some other key that was stored in this directory need
-// the same path name once as a file and once as a directory (directories outlive a Delete).
-func fsDirConflict(key string, model map[string][]byte) bool {
-	a := fsFragments(key)
-	for other := range model {
-		if other == key {
-			continue
-		}
-		b := fsFragments(other)
-		short, long := a, b
-		if len(short) > len(long) {
-			short, long = long, short
-		}
-		if len(short) == len(long) {
-			continue
-		}
-		same := true
-		for i := range short {
-			if short[i] != long[i] {
-				same = false
-				break
-			}
-		}
-		if same {
-			return true
-		}
-	}
-	return false
-}
 
 // muxCannotAddress: keys that net/http.ServeMux cannot deliver as the {key} path segment
 // (path cleaning of "." and "..", the empty segment, and a lone escaped slash).
